@@ -1,3 +1,4 @@
 import SC.Audit
 import SC.Properties.C07
+import SC.Properties.Src.C07
 #audit C07
